@@ -94,8 +94,8 @@ Print Assumptions C01_fold_step.
 
 (* 10 - 3 - 2 parses as (10 - 3) - 2, and 2 + 3 * 4 as 2 + (3 * 4): instances through the whole lexer + parser model *)
 Example C01_left_assoc_and_precedence :
-  match front (fun _ => None) [] [109] 200 [2470;2503;2454;2494;2451;32;2535;2534;32;45;32;2537;32;45;32;2536;59]%N with
+  match front (fun _ => None) [] [109%N] 200 [2470;2503;2454;2494;2451;32;2535;2534;32;45;32;2537;32;45;32;2536;59]%N with
   | Ok (FPrint (EBin BSub (EBin BSub (ENum _ _) (ENum _ _) _) (ENum _ _) _) _ :: _) => True | _ => False end /\
-  match front (fun _ => None) [] [109] 200 [2470;2503;2454;2494;2451;32;2536;32;43;32;2537;32;42;32;2538;59]%N with
+  match front (fun _ => None) [] [109%N] 200 [2470;2503;2454;2494;2451;32;2536;32;43;32;2537;32;42;32;2538;59]%N with
   | Ok (FPrint (EBin BAdd (ENum _ _) (EBin BMul (ENum _ _) (ENum _ _) _) _) _ :: _) => True | _ => False end.
 Proof. vm_compute. split; exact I. Qed.
